@@ -388,6 +388,17 @@ func (q *c07Req) raw() []byte {
 
 func (q *c07Req) sent(name string) []string {
 	var out []string
+	// a header the client names in its Connection header is meant for this hop only: towards the upstream it counts as
+	// not sent
+	for _, h := range q.Headers {
+		if strings.EqualFold(h.Name, "Connection") && !strings.EqualFold(name, "Connection") {
+			for _, f := range strings.Split(h.Value, ",") {
+				if strings.EqualFold(strings.TrimSpace(f), name) {
+					return nil
+				}
+			}
+		}
+	}
 	for _, h := range q.Headers {
 		if strings.EqualFold(h.Name, name) {
 			out = append(out, h.Value)
@@ -442,6 +453,18 @@ func c07Wire(c *ctx, which string) {
 					for i := g; i < n; i += 12 {
 						id := fmt.Sprintf("%s-%d", hc.Name, seq.Add(1))
 						q := genC07(r, rg, id, c.thorough())
+						if which == "c08" && q.Upgrade == "" && r.Intn(10) == 0 {
+							// the client declares the headers fabio manages as hop-by-hop: the upstream must learn the truth all the same
+							names := []string{"X-Real-Ip", "X-Forwarded-Proto", "X-Forwarded-Host", "X-Forwarded-Port", "Forwarded", "X-Forwarded-For"}
+							if hc.ClientIP != "" {
+								names = append(names, hc.ClientIP)
+							}
+							if hc.TLSHeader != "" {
+								names = append(names, hc.TLSHeader)
+							}
+							r.Shuffle(len(names), func(i, j int) { names[i], names[j] = names[j], names[i] })
+							q.Headers = append(q.Headers, rawhttp.Header{Name: "Connection", Value: strings.Join(names[:1+r.Intn(len(names))], ", ")})
+						}
 						c07One(c, which, rg, q, &unrouted)
 					}
 				}(g)
